@@ -89,6 +89,7 @@ type World struct {
 	den   [nKinds]int
 	rpos  int
 	rec   []Switch
+	nrec  int
 	hash  uint64
 
 	aborted     bool
@@ -214,7 +215,7 @@ func (w *World) start() {
 		}
 		w.rpos = 1
 	}
-	w.rec = append(w.rec, Switch{Step: 0, To: first.ID, Site: -1})
+	w.push(Switch{Step: 0, To: first.ID, Site: -1})
 	w.cur = first
 	raceDisable()
 	first.wake <- struct{}{}
@@ -294,9 +295,25 @@ func (w *World) taskExit(t *Task) {
 	raceEnable()
 }
 
+// push appends to the recorded schedule without append/copy (both are
+// instrumented by the race runtime even inside norace functions).
+//
+//go:norace
+func (w *World) push(s Switch) {
+	if w.nrec == len(w.rec) {
+		nr := make([]Switch, 2*len(w.rec)+64)
+		for i := 0; i < w.nrec; i++ {
+			nr[i] = w.rec[i]
+		}
+		w.rec = nr
+	}
+	w.rec[w.nrec] = s
+	w.nrec++
+}
+
 //go:norace
 func (w *World) record(to *Task, site int) {
-	w.rec = append(w.rec, Switch{Step: w.steps, To: to.ID, Site: site})
+	w.push(Switch{Step: w.steps, To: to.ID, Site: site})
 	w.hash = (w.hash ^ uint64(w.steps)*0x9e3779b97f4a7c15 ^ uint64(to.ID+1)*0xff51afd7ed558ccd ^ uint64(site+1000)) * 0x100000001b3
 	w.Switches++
 }
@@ -614,7 +631,7 @@ func Aborted() bool {
 }
 
 func (w *World) Steps() int64      { return w.steps }
-func (w *World) Recorded() []Switch { return w.rec }
+func (w *World) Recorded() []Switch { return w.rec[:w.nrec] }
 func (w *World) Hash() uint64       { return w.hash }
 func (w *World) Tasks() []*Task     { return w.tasks }
 func (w *World) WasAborted() bool   { return w.aborted }
